@@ -21,12 +21,12 @@ CHECKS = {
         'DESIGN.md section 3 C11'),
     'C18': (
         'controlled-scheduler interleaving exploration (seeded random schedules + systematic single-preemption at every shallow point of build(); cooperative locks) + free-running stress',
-        'For 4 schema sources, Hypothesis draws schedule seeds, 2-4 threads, switch probabilities and per-thread call plans; all '
+        'For 11 schema sources, Hypothesis draws schedule seeds, 2-4 threads, switch probabilities and per-thread call plans; all '
         'threads race build() of one unbuilt schema object and then validate / decode documents; a baton-passing scheduler switches '
         'threads at function calls inside the package (sys.settrace) and at contended cooperative locks. Per-thread results must equal '
         'the sequential baseline, component identities must not change after any thread\'s build() returned (built once), and the final '
         'signature must equal a sequential build\'s. A systematic tier preempts the building thread once at every line of '
-        'XsdGlobals.build() and every call of depth <= 2 (thorough 3) below it and lets a second thread build and use the schema. A free-running tier with switch interval 1e-6 complements it. Refutes only. A pool whose identity selectors are extended at run time (xsi:type-substituted content) exercises shared state written during validation.',
+        'XsdGlobals.build() and every call of depth <= 2 (thorough 3) below it and lets a second thread build and use the schema. A free-running tier with switch interval 1e-6 complements it. Refutes only. A pool whose identity selectors are extended at run time (xsi:type-substituted content) exercises shared state written during validation. Pools also cover a schema with its own meta-schema (use_meta=False), XSD 1.1 assertions resolving QNames in inner prefix scopes (every line of the resource\'s xpath_root is a schedule point) and encode() of empty values.',
         'trusted: sequential run as reference; no claim about preemption inside C code beyond the free-running tier',
         'DESIGN.md section 3 C18'),
     'C14': (
@@ -124,7 +124,7 @@ CHECKS = {
         'Random hierarchies (extension/restriction chains, abstract, block on types/elements, blockDefault) with every type name '
         'as xsi:type and 4 content variants; built-in simple chain x block; exhaustive substitution matrix (head block x abstract x '
         'blockDefault x 9 children incl. second level and type-blocked); exhaustive nil/fixed/default matrix (4 types x nillable x '
-        'value constraint x 7 xsi:nil forms x content forms); XSD 1.1 type alternatives (ordered tests x attribute x content).',
+        'value constraint x 7 xsi:nil forms x content forms); XSD 1.1 type alternatives (ordered tests x attribute x content). A cross-chain matrix names every type of a simple -> simple-content -> complex chain, a complex chain, list and union types as xsi:type of elements declared with a built-in, simple, simple-content, complex type or no type, under 5 element block values; fixed decimal values are compared under integer xsi:types.',
         'trusted: the reference functions in vf/checks/c07.py written from cvc-elt / Substitution Group OK; final never affects instances',
         'DESIGN.md section 3 C07'),
     'C02': (
@@ -155,7 +155,7 @@ CHECKS = {
         'x 22 (target, spelling) pairs is executed for XSD 1.0 and 1.1 while sys.addaudithook records every file open and '
         'urllib request; no observed fetch may fall outside the allowed class (path-component containment for the sandbox), '
         'a denied file\'s marker declaration must be absent from the schema and must not change a verdict. Complete within '
-        'the catalogue; symlinks and platform-specific path forms are out of scope. Mechanisms also cover the schema-less package API (schema found through the hint of the document) and namespaces loaded on demand during validation from the locations map; spellings include dotted file URLs.',
+        'the catalogue; symlinks and platform-specific path forms are out of scope. Mechanisms also cover the schema-less package API (schema found through the hint of the document) and namespaces loaded on demand during validation from the locations map; spellings include dotted file URLs. Further rows: a main source given as text with a REMOTE base_url (locations below / beside the remote prefix), and a hinting document that lies outside the directory of the schema.',
         'trusted: the audit hook sees every open/urllib.Request of the process; stub opener stands for remote hosts',
         'DESIGN.md section 3 C12'),
     'C13': (
@@ -163,7 +163,7 @@ CHECKS = {
         'defuse mode x 11 source kinds x 12 DTD payloads x 4 encodings x role (instance, main schema, included schema), '
         'plus Hypothesis prologs (padding up to 70 KiB, comments that look like declarations, PIs, BOMs): where defusing '
         'applies and an entity is declared or an external DTD subset is named the outcome must be XMLResourceForbidden with '
-        'no open of the canary file; clean documents must parse to the same tree as an undefused parse.',
+        'no open of the canary file; clean documents must parse to the same tree as an undefused parse. Also: remote URLs without a path (http://host, http://host?query), the parse() route of an existing XMLResource / XmlDocument, and lxml\'s iterparse on encodings the checking parser cannot read (multi-byte, UTF-32, UTF-16-LE).',
         'trusted: applicability table (vf/checks/c13.py applies()); cells the statement leaves open are reported, not asserted',
         'DESIGN.md section 3 C13'),
     'C04': (
@@ -183,7 +183,7 @@ CHECKS = {
         'Scopes S1 (1 171 050 models), S2 (183 424) and S3 (27 108) are enumerated completely in the thorough tier (seeded '
         'slice in quick) for both XSD versions, plus a fixed pool of 24 000 larger models; the library\'s model error is '
         'compared in both directions with weak determinism of the unrolled Glushkov automaton + EDC. The models the pinned '
-        'tree mis-judges are listed explicitly (known findings, ~27 000 per version); any other disagreement is a violation. Three more scopes: a fixed sample of models with prohibited (maxOccurs=0) particles, namespace-list wildcards meeting only on ##local, and (XSD 1.1) two substitution heads sharing a member.',
+        'tree mis-judges are listed explicitly (known findings, ~27 000 per version); any other disagreement is a violation. Three more scopes: a fixed sample of models with prohibited (maxOccurs=0) particles, namespace-list wildcards meeting only on ##local, and (XSD 1.1) two substitution heads sharing a member. Scope S9 adds a head that blocks substitution with its would-be member, scope S10 a reference to an abstract member whose own member has another type next to the head; a cross-namespace sub-check puts a local wildcard next to the wildcard of a group imported from another target namespace (9 x 9 namespace constraints x 2 orders) against set denotations.',
         'trusted: vf/oracles/cm.py (self-tested against Python re on every run); strict-vs-lax build equivalence is sampled',
         'DESIGN.md section 3 C15'),
     'C16': (
@@ -192,7 +192,7 @@ CHECKS = {
         'wildcards, notQName in 1.1) is enumerated completely; membership, union, intersection, restriction and '
         'overlap are compared with plain set operations on a universe that has a witness for every distinguishable '
         'region, through wildcard objects and through validation/build verdicts. Within this finite space the '
-        'answer is complete; nothing is claimed for several target namespaces or ##defined. After every combination the operands themselves are checked again (no state shared between a wildcard and its copies).',
+        'answer is complete; nothing is claimed for several target namespaces or ##defined. After every combination the operands themselves are checked again (no state shared between a wildcard and its copies). Two cross-namespace sub-checks were added later: union (extension) / intersection (attribute group reference) of attribute wildcards declared for different target namespaces against set denotations, and an XSD 1.1 xs:all base with two wildcards judged with and without a restricting type in the schema.',
         'trusted: the 60-line set-denotation reference (vf/oracles/wild.py); single target namespace',
         'DESIGN.md section 3 C16'),
 }
